@@ -276,7 +276,7 @@ func cmdClaim(args []string) {
 	}
 	for _, p := range props {
 		// claim only what discharges comfortably inside the quick budget
-		opts := solveOpts{dir: dir, quickT: 3, slowT: 8, workers: 16, stability: true, cache: cache}
+		opts := solveOpts{dir: dir, quickT: 2, slowT: 2, workers: 8, stability: true, noSecond: true, cache: cache}
 		if len(onlySet) > 0 {
 			opts.funcFilter = onlySet
 		}
@@ -385,7 +385,7 @@ func cmdCheck(args []string) {
 	}
 	dir := mkScratch()
 	defer os.RemoveAll(dir)
-	opts := solveOpts{dir: dir, quickT: 5, slowT: 20, workers: 16}
+	opts := solveOpts{dir: dir, quickT: 10, slowT: 40, workers: 16}
 	if *tier == "thorough" {
 		opts.slowT = 60
 		opts.both = true
